@@ -253,6 +253,15 @@ P["C18"] = {
               "init": ["strconv", "unicode/utf8"], "require_reach": ["c18:quoted"], "thorough": {"max_values": 300}, "bounds": "every 2-byte string constant"}]}
 
 
+HIST = ["h_remove", "h_reuse", "h_reuse_twice_lib", "h_reuse_twice_kb", "h_dup_later_resource", "h_dup_same_resource", "h_two_kbs"]
+for sl in (0, 1):
+    P["C16"]["runs"].append({"name": "c16-histories" + ("-stored" if sl else ""), "pkgdir": "zztier", "harness": TIERC_H, "entry": "VerifC16History", "args": [sl], "tiers": QT,
+                             "templates": [h + ".recipe.json" for h in HIST], "require_reach": ["c16:history"] + (["c16:stored-and-loaded"] if sl else []), "replay_attempts": 60, "compare_events": False,
+                             "bounds": "7 build / remove / re-build histories run natively by the real builder and library (remove, reuse of the name, second removal at library and knowledge-base level, duplicate in a later and in the same resource, two knowledge bases in one library)" + (", then store -> load" if sl else "") + "; suffix on symbolic facts"})
+P["C16"]["assumptions"] = TIERA_ASSUME + TIERB_ASSUME
+P["C16"]["bounds"] += "; Tier B: 7 histories (native prefix) continued symbolically: instantiate, Execute and FetchMatchingRules on symbolic facts (removed rules never evaluated / fired / matched, the reused name behaves exactly as its rule built alone), again after store -> load"
+P["C16"]["outside"] = "histories outside the 7 recipes; symbolic rule names (the Tier K of DESIGN §8 C16 over SMT strings is not built)"
+
 P["C20"] = {
     "design_ref": "DESIGN.md §8 C20", "assumptions": TIERC_ASSUME + [
         "over-allocation is decided at every make() whose size derives from the input: the executor asserts size*elemsize <= 4*len(input) + 128 KiB for ALL values of the mutated field (solver), then continues with representative sizes (0, 1, two solver-chosen) - explicit concretisation",
